@@ -99,7 +99,14 @@ def mul(sx, a, b):
     wa = width(a)
     lb = literal(b)
     if lb is not None:
-        sx.domain(representable(k, wa, lb))
+        if k is Unsigned:
+            sx.domain(lb >= 0)  # numeric_std: UNSIGNED * NATURAL -- a negative integer is a bound error, no value to compare with
+        if not sx.branch(representable(k, wa, lb)):
+            # numeric_std converts the integer to the width of the VECTOR operand (to_unsigned / to_signed(lit, L'length)):
+            # the emitted `(a) * (17)` multiplies by the truncated literal.  A fold may refuse such a literal, but if it
+            # yields a value it must be that one.
+            sx.may_reject_here(AssertionError)
+            lb = sym.wrap_unsigned(lb, wa) if k is Unsigned else sym.wrap_signed(lb, wa)
         return mk(k, 2 * wa, ival(a) * lb)
     if kind_of(b) is not k:
         return NotImplemented
